@@ -46,26 +46,36 @@ Definition detect_compression (w : list N) : comp :=
   end.
 
 (* MultiGzDecoder::new(window) as an oracle value: [avail] are the bytes it delivers, then it
-   stops with [stop] (UnexpectedEof for a clean end of the window as well as for a truncated
-   member: Read::read_exact turns Ok(0) into UnexpectedEof). *)
-Record inflated := mk_inflated { avail : list N; stop : err }.
+   stops: [None] = clean end of the stream (read returns Ok(0)), [Some e] = the decoder's error
+   (UnexpectedEof for a member cut off inside the window, InvalidInput for a bad header, ...). *)
+Record inflated := mk_inflated { avail : list N; stop : option err }.
 
-(* Read::read_exact of n bytes from the decoder *)
-Definition read_exact_infl (n : nat) (i : inflated) : res (list N) :=
-  if (n <=? length (avail i))%nat then Ok (firstn n (avail i)) else Err (stop i).
+(* decoder.take(n).read_to_end(&mut buf): at most n bytes; a clean end earlier is not an error *)
+Definition read_upto_infl (n : nat) (i : inflated) : res (list N) :=
+  if (n <=? length (avail i))%nat then Ok (firstn n (avail i))
+  else match stop i with None => Ok (avail i) | Some e => Err e end.
+
+(* what can follow "CRAM" at the start of SAM text: a read name character (u8::is_ascii_graphic)
+   or the TAB that ends the field; the major version of a CRAM file definition is neither *)
+Definition sam_cont (b : N) : bool := ((33 <=? b) && (b <=? 126)) || (b =? 9).
 
 (* alignment detect_format *)
 Definition detect_format_a (w : list N) (c : comp) (i : inflated) : res afmt :=
   match c with
   | CBgzf =>
-      match read_exact_infl 4 i with
+      match read_upto_infl 4 i with
       | Err e => Err e
       | Ok b => if eqb_bytes b BAM_MAGIC then Ok Bam else Ok Sam
       end
   | CNone =>
       match get_to 4 w with
       | Some b => if eqb_bytes b BAM_MAGIC then Ok Bam
-                  else if eqb_bytes b CRAM_MAGIC then Ok Cram else Ok Sam
+                  else if eqb_bytes b CRAM_MAGIC then
+                    match nth_error w 4 with
+                    | Some x => if sam_cont x then Ok Sam else Ok Cram
+                    | None => Ok Cram
+                    end
+                  else Ok Sam
       | None => Ok Sam
       end
   end.
@@ -74,7 +84,7 @@ Definition detect_format_a (w : list N) (c : comp) (i : inflated) : res afmt :=
 Definition detect_format_v (w : list N) (c : comp) (i : inflated) : res vfmt :=
   match c with
   | CBgzf =>
-      match read_exact_infl 3 i with
+      match read_upto_infl 3 i with
       | Err e => Err e
       | Ok b => if eqb_bytes b BCF_MAGIC then Ok Bcf else Ok Vcf
       end
@@ -145,6 +155,9 @@ Definition vcf_text (rest : list N) : list N := VCF_PREFIX ++ rest.
 Definition bcf_payload (rest : list N) : list N := BCF_MAGIC ++ 2 :: 2 :: rest.
 
 Definition starts_with (p s : list N) : bool := eqb_bytes (firstn (length p) s) p.
+
+(* a CRAM major version number (1..4 exist) is a control byte other than TAB *)
+Definition cram_major_ok (major : N) : bool := negb (sam_cont major).
 
 (* the F14 class: a header-less SAM whose first read name begins with "CRAM" *)
 Definition sam_first_name_cram (hdr : list (list N)) (recs : list sam_line) : bool :=
